@@ -276,10 +276,10 @@ def units(w):
 
     # ---- lists of numbers and strings (<= 3 elements, symbolic-bounded): an occurrence is an element *equal* to the part in the
     #      language's sense (1 == 1.0), whatever the classes of the two values
-    EKINDS = ("int", "decimal", "string")
+    EKINDS = ("int", "decimal", "string", "null")
 
     def mk_el(it, kind, name):
-        return {"int": V.int, "decimal": V.dec, "string": V.string}[kind](it, name)
+        return V.NULL if kind == "null" else {"int": V.int, "decimal": V.dec, "string": V.string}[kind](it, name)
 
     def lang_eq(a, b):
         ka, kb = cls_name(a), cls_name(b)
@@ -290,12 +290,14 @@ def units(w):
             return za == zb_
         if ka == kb == "ValueString":
             return a.fields["value"].z == b.fields["value"].z
+        if a is V.NULL or b is V.NULL:
+            return z3.BoolVal(a is b)
         return z3.BoolVal(False)
 
     def s_findk(which, n):
         def setup(it):
-            els = [mk_el(it, EKINDS[it.path.choose(3)], f"el{i}") for i in range(n)]
-            part = mk_el(it, EKINDS[it.path.choose(3)], "part")
+            els = [mk_el(it, EKINDS[it.path.choose(len(EKINDS))], f"el{i}") for i in range(n)]
+            part = mk_el(it, EKINDS[it.path.choose(len(EKINDS))], "part")
             f = fn_obj("FuncFind" if which == "find" else "FuncFindLast")
             return [f, V.args(it, {"obj": V.list_of(it, els, "l"), "part": part}, ["obj", "part", "key", "start"]), V.env(it), V.pos(it, "cpos")], {}, \
                 {"els": els, "part": part}
@@ -317,8 +319,8 @@ def units(w):
     for which in ("find", "find_last"):
         for n in (1, 2, 3):
             t = "functions.py::FuncFind.execute" if which == "find" else "functions.py::FuncFindLast.execute"
-            U.append(Unit(t, s_findk(which, n), p_findk(which, n), name=f"{t}[list of {n} numbers/strings]",
-                          bounded="lists of <= 3 elements (ints, decimals, strings; symbolic payloads)", replay=replay_lang(which + "list")))
+            U.append(Unit(t, s_findk(which, n), p_findk(which, n), name=f"{t}[list of {n} numbers/strings/NULLs]",
+                          bounded="lists of <= 3 elements (ints, decimals, strings, NULL; symbolic payloads)", replay=replay_lang(which + "list")))
 
     # =========================================================== insert_at / delete_at
     def s_ins(it):
@@ -461,7 +463,7 @@ def model_slice(s, a, b):
 def lit(x):
     if isinstance(x, str):
         return "'" + x + "'"
-    return "[" + ", ".join(str(e) for e in x) + "]"
+    return "[" + ", ".join("NULL" if e is None else str(e) for e in x) + "]"
 
 
 def small_domain(what):
@@ -476,19 +478,20 @@ def small_domain(what):
             if form == "mixed":
                 if what not in ("findlist", "find_lastlist") or not s:
                     continue
-                for ab in ({"a": 1, "b": 1.0, "c": 2}, {"a": 2.0, "b": 1, "c": 2}):
+                for ab in ({"a": 1, "b": 1.0, "c": 2}, {"a": 2.0, "b": 1, "c": 2}, {"a": None, "b": 1, "c": None}):
                     v = [ab[ch] for ch in s]
                     n = len(v)
-                    for p in (1, 1.0, 2, 2.0, 3.0):
-                        occ = [q for q in range(n) if v[q] == p]
+                    for p in (1, 1.0, 2, 2.0, 3.0, None):
+                        occ = [q for q in range(n) if (v[q] == p if (v[q] is not None and p is not None) else v[q] is p)]
+                        pl = "NULL" if p is None else str(p)
                         if what == "find_lastlist":
-                            yield f"find_last({lit(v)}, {p})", str(max(occ, default=-1))
+                            yield f"find_last({lit(v)}, {pl})", str(max(occ, default=-1))
                             for k in range(0, n):
-                                yield f"find_last({lit(v)}, {p}, start = {k})", str(max([q for q in occ if q <= k], default=-1))
+                                yield f"find_last({lit(v)}, {pl}, start = {k})", str(max([q for q in occ if q <= k], default=-1))
                         else:
                             for k in range(0, n + 2):
                                 e = min([q for q in occ if q >= k], default=-1)
-                                yield (f"find({lit(v)}, {p}, start = {k})" if k else f"find({lit(v)}, {p})"), str(e)
+                                yield (f"find({lit(v)}, {pl}, start = {k})" if k else f"find({lit(v)}, {pl})"), str(e)
                 continue
             v = s if form == "str" else [ord(ch) - 96 for ch in s]
             n = len(v)
